@@ -24,7 +24,7 @@ def ttl_case(draw, broker):
     ttl_us = draw(st.one_of(st.integers(1, 60).map(lambda s: s * 1_000_000), st.integers(1_000_000, 60_000_000),
                             st.sampled_from([0, 1, 500_000])))
     kind = draw(st.sampled_from(["immediate", "immediate", "delayed-before", "delayed-after", "retried", "rescheduled", "no-ttl"]))
-    case = {"broker": broker, "seed": draw(st.integers(0, 2**16)), "ttl_us": ttl_us, "kind": kind, "tz": draw(st.sampled_from([None, None, "EST5", "IST-5:30", "NZT-13"])),
+    case = {"broker": broker, "seed": draw(st.integers(0, 2**16)), "ttl_us": ttl_us, "kind": kind, "tz": draw(st.sampled_from([None, None, *vclock.zones(3)])),
             "eps_us": draw(EPS), "phase_us": draw(st.integers(0, 999_999)), "age_us": draw(st.integers(0, ttl_us // 2)),
             "patience": draw(st.sampled_from([0.05, 0.3, 0.7])), "prio": draw(st.sampled_from([0, 5, 9])),
             "payload": draw(st.text("ab{}\"", max_size=5)), "due_frac": draw(st.integers(1, 99)) / 100,
